@@ -537,9 +537,8 @@ func (p *Parser) evaluateValues(ctx context) (evaluatedValues, error) {
 		returnValuesLength := -1
 		funcName := ""
 
-		// If expression is a function, check if it returns a value.
-		if expr.StatementType() == STATEMENT_TYPE_FUNCTION_CALL {
-			call := expr.(FunctionCall)
+		// If expression is a function- or program-call, check if it returns a value.
+		if call, isCall := expr.(Call); isCall {
 			returnValuesLength = len(call.ReturnTypes())
 			funcName = call.Name()
 
